@@ -57,8 +57,8 @@ type c05 struct{}
 
 func init() { register(&c05{}) }
 
-func (*c05) ID() string                      { return "C05" }
-func (*c05) Level() string                   { return "exploration" }
+func (*c05) ID() string                     { return "C05" }
+func (*c05) Level() string                  { return "exploration" }
 func (*c05) Decode(raw []byte) (any, error) { return decodeInto[C05Scenario](raw) }
 
 func genLocal(r *sim.Rand) string {
